@@ -21,6 +21,7 @@ class Job:
         self.kf = tuple(kf)          # ids of known findings this job may be subject to (excluded by -DKF_<id> when listed open)
         self.kfonly = kfonly         # id of the known finding this job reproduces (expected to FAIL)
         self.unwindset = tuple(unwindset); self.backend = tuple(backend)
+        self.members = None          # batch job: list of member Jobs (same harness/entry); params = [K, n1, p1.., n2, p2..]
         self.params = tuple(params)  # concrete shape parameters, passed to cbmc as -DVERIF_PARAMS=v0,v1,...
         self.result = None
 
@@ -246,19 +247,46 @@ class Check:
             return self.finish(build_failed=True)
         self.say('[%s] built %d translation units in %.1fs' % (self.pid, len(cfiles), time.time() - self.t0))
         # run heavier jobs first
-        order = sorted(jobs, key=lambda j: -j.timeout)
-        par = max(1, min(NCPU, int(os.environ.get('VERIF_CBMC_PAR', NCPU))))
-        with ThreadPoolExecutor(par) as ex:
-            futs = {ex.submit(self.run_job, j, cfiles[j.group_key()]): j for j in order}
-            for fut in as_completed(futs):
-                j = futs[fut]
-                try:
-                    r = fut.result()
-                except Exception as e:
-                    r = {'status': 'error', 'failed': [], 'out': traceback.format_exc(), 'wall': 0, 'rss_kb': 0}
-                v, labels = self.classify(j, r)
-                j.result = {'verdict': v, 'labels': labels, 'raw': r, 'cfile': cfiles[j.group_key()]}
-                self.say('  %-44s %-12s %6.1fs %6dMB %s' % (j.name, v, r.get('wall', 0), r.get('rss_kb', 0) // 1024, '; '.join(l if isinstance(l, str) else l[1] for l in labels)[:160]))
+        def run_round(batch):
+            order = sorted(batch, key=lambda j: -j.timeout)
+            par = max(1, min(NCPU, int(os.environ.get('VERIF_CBMC_PAR', NCPU))))
+            with ThreadPoolExecutor(par) as ex:
+                futs = {ex.submit(self.run_job, j, cfiles[j.group_key()]): j for j in order}
+                for fut in as_completed(futs):
+                    j = futs[fut]
+                    try:
+                        r = fut.result()
+                    except Exception as e:
+                        r = {'status': 'error', 'failed': [], 'out': traceback.format_exc(), 'wall': 0, 'rss_kb': 0}
+                    v, labels = self.classify(j, r)
+                    j.result = {'verdict': v, 'labels': labels, 'raw': r, 'cfile': cfiles[j.group_key()]}
+                    if j.members is None or v != 'pass':
+                        self.say('  %-44s %-12s %6.1fs %6dMB %s' % (j.name, v, r.get('wall', 0), r.get('rss_kb', 0) // 1024, '; '.join(l if isinstance(l, str) else l[1] for l in labels)[:160]))
+        run_round(jobs)
+        # batches: a passing batch passes all its members (they ran back to back in one cbmc process, one witness at the very end);
+        # anything else is re-run member by member so that verdicts, traces and replays are per shape
+        final = []
+        redo = []
+        for j in jobs:
+            if j.members is None:
+                final.append(j); continue
+            if j.result['verdict'] == 'pass':
+                n = len(j.members)
+                for m in j.members:
+                    raw = dict(j.result['raw']); raw['out'] = ''
+                    for k in ('wall', 'solver_s'):
+                        if raw.get(k): raw[k] = round(raw[k] / n, 3)
+                    raw['n_props'] = (raw.get('n_props') or 0)
+                    raw['batched_with'] = n
+                    m.result = {'verdict': 'pass', 'labels': [], 'raw': raw, 'cfile': j.result['cfile']}
+                    final.append(m)
+            else:
+                redo += j.members
+        if redo:
+            self.say('[%s] %d batch(es) did not pass as a whole: re-running %d shapes one by one' % (self.pid, len([j for j in jobs if j.members and j.result['verdict'] != 'pass']), len(redo)))
+            run_round(redo)
+            final += redo
+        self.jobs = final
         return self.finish()
 
     def finish(self, build_failed=False):
